@@ -12,6 +12,9 @@
     tag      <docRegime> <schema> <tag> <n> <addon>*n
     currency <code>
     country  <code>
+    meanskey <required 0|1> <key>                       payment.instructions.key (1), advances[*].key (0)
+    notekey  <key>
+    termskey <key>
 
   Answer: `ok <resolves 0|1> <model-validates 0|1>` — the specification
   (Spec/C18.lean) and the model of the code's rule (Model/Refs.lean).
@@ -48,6 +51,10 @@ def handle (toks : List String) : String :=
     ans (tagResolvesB r as schema tag) (validateDocTags r as schema [tag])
   | [some "currency", some code] => ans (defs.currencies.contains code) (validateCodes defs [code] [])
   | [some "country", some code] => ans (defs.countries.contains code) (validateCodes defs [] [code])
+  | [some "meanskey", some req, some key] =>
+    ans (meansKeyResolvesB keySets key) (validateMeansKey keySets (req == "1") key)
+  | [some "notekey", some key] => ans ((KeySets.get keySets "org/note").contains key) (validateNoteKey keySets key)
+  | [some "termskey", some key] => ans ((KeySets.get keySets "pay/terms").contains key) (validateTermsKey keySets key)
   | _ => "bad-request"
 
 end Driver.C18
